@@ -778,8 +778,8 @@ Definition axisOrderIsLatLon (axes : option (list string)) : outcome bool :=
   match axes with
   | Some (a :: b :: _) =>
       let s := to_lower (append a (String ","%char b)) in
-      if has_prefix "e,n" s || has_prefix "x,y" s || has_prefix "lon,lat" s || has_prefix "e(x),n(y)" s then Ok true
-      else if has_prefix "n,e" s || has_prefix "y,x" s || has_prefix "lat" s || has_prefix "lon" s then Ok false
+      if has_prefix "n,e" s || has_prefix "y,x" s || has_prefix "lat,lon" s || has_prefix "n(y),e(x)" s then Ok true
+      else if has_prefix "e,n" s || has_prefix "x,y" s || has_prefix "lon,lat" s || has_prefix "e(x),n(y)" s then Ok false
       else Error
   | _ => Error
   end.
